@@ -8,6 +8,16 @@ CLAIMS = {
          "closed set in the critical section that observes quiescence (or before the wait); wait < callbacks < close(done) inside sync.Once; entry points admitted first. "
          "Does not decide: liveness/deadlock freedom, re-entrant Close from inside an execution. Trusted: go/types, sync semantics.",
          "DESIGN.md §4 C09"),
+ "C05": ("edge-sensitive error-value flow on go/ssa (iterator errors) + symbolic path interpretation of Generator.Send and the yield opcodes",
+         "Decides: every consumer of py.Next/Send/M__next__ propagates or classifies (StopIteration only) the error; iteration hubs' errors propagated; generator typestate "
+         "(Running bracket, finished stays finished, exception exit finishes, return value carried, send pushed once on resume), yield/return opcode protocol, yield-before-unwind. "
+         "Does not decide: that the code between two yields is 'exactly the code up to the next yield' (VM semantics); throw()/close() (unimplemented in gpython).",
+         "DESIGN.md §4 C05"),
+ "C12": ("abstract interpretation of opcode handlers over a symbolic stack vs the compiler's stack-effect table; table/dispatch exhaustiveness; jump-addressing agreement (typed AST)",
+         "Decides: per-opcode handler net stack effect = opcodeStackEffect (+stackDepthWalk jump adjustments) on every successful path; every opcode handled and every emitted opcode tabled; "
+         "abs/rel jump agreement between emitter and handlers; argument-taking agreement. Does not decide: the property's second sentence (depths actually reached at run time), "
+         "line-table monotonicity for every program, StackDepth's walk being the maximum over all paths.",
+         "DESIGN.md §4 C12"),
 }
 _todo = "rules for this property are designed (DESIGN.md §4) but not yet implemented in this revision of the checker"
-NA = {p: _todo for p in ["C02","C03","C04","C05","C06","C07","C08","C10","C11","C12","C13","C14","C15","C16","C17","C18","C19","C20"]}
+NA = {p: _todo for p in ["C02","C03","C04","C06","C07","C08","C10","C11","C13","C14","C15","C16","C17","C18","C19","C20"]}
